@@ -36,7 +36,7 @@ BOUNDS = {"values": "Union of 8 types (CrossHair) / 19 literals (lpe)"}
 T0 = _dt.datetime(2020, 1, 1, tzinfo=_dt.timezone.utc)
 BATTERY = [0, 1, -1, 1.5, 0.0, True, False, b"", b"x", None, "", "x", [], [1], {}, {"a": 1}, (1,), T0, float("nan")]
 SLOTS = ("time", "measurement", "tag_key", "tag_value", "field_key", "field_value")
-ENTRIES = ("ctor", "setter", "update_static", "update_all_static", "update_callable", "update_all_callable", "handle_update_static", "handle_update_callable", "insert_nonpoint", "insert_multiple_nonpoint")
+ENTRIES = ("ctor", "setter", "update_static", "update_all_static", "update_callable", "update_all_callable", "handle_update_static", "handle_update_callable", "insert_nonpoint", "insert_multiple_nonpoint", "ctor+other", "update_static+other", "update_all_static+other", "handle_update_static+other")
 
 
 def valid_for(slot, v):
@@ -98,6 +98,14 @@ def attempt(db, entry, slot, v):
         kw = {"fields": {v: 1}}
     else:
         kw = {"fields": {"f": v}}
+    if v is None and slot in ("time", "measurement") and "update" in entry:
+        return ("skip", "None is the documented 'argument not given' value of update()")
+    companion = entry.endswith("+other")
+    if companion:
+        # the same call also carries a VALID value for another argument
+        entry = entry[: -len("+other")]
+        other = {"time": {"measurement": "mm"}, "measurement": {"tags": {"ok": "v"}}, "tag_key": {"fields": {"ok": 1}}, "tag_value": {"fields": {"ok": 1}}, "field_key": {"tags": {"ok": "v"}}, "field_value": {"tags": {"ok": "v"}}}[slot]
+        kw = dict(other, **kw) if slot.startswith("field") else dict(kw, **other)
     try:
         if entry == "ctor":
             p = Point(**kw)
@@ -139,7 +147,7 @@ def check_one(db, entry, slot, v):
     kind, info = attempt(db, entry, slot, v)
     if kind == "skip":
         return True, None
-    if entry in ("insert_nonpoint", "insert_multiple_nonpoint"):
+    if entry.split("+")[0] in ("insert_nonpoint", "insert_multiple_nonpoint"):
         ok_value = isinstance(v, Point)
     else:
         ok_value = valid_for(slot, v)
@@ -182,14 +190,14 @@ def obligations(tier):
         slots = SLOTS if not entry.startswith("insert") else ("time",)
         for slot in slots:
             for storage in ("mem", "csv"):
-                if storage == "csv" and entry in ("ctor", "setter"):
+                if storage == "csv" and entry.split("+")[0] in ("ctor", "setter"):
                     continue
                 obs.append({"id": f"battery/{entry}/{slot}/{storage}", "harness": "h_battery", "params": {"entry": entry, "slot": slot, "storage": storage}, "budget_s": 60})
             # CrossHair: value slots only (a hashed symbolic value - a dict key - is realised, which turns
             # "for all" into an endless enumeration; key slots are decided by the battery family)
-            if slot.endswith("_key") or (tier == "quick" and entry not in ("ctor", "update_static", "update_callable", "insert_nonpoint")):
+            if slot.endswith("_key") or (tier == "quick" and entry not in ("ctor", "update_static", "update_callable", "insert_nonpoint", "update_static+other")):
                 continue
-            if tier == "quick" and entry == "update_static" and slot in ("time", "measurement"):
+            if tier == "quick" and entry.split("+")[0] == "update_static" and slot in ("time", "measurement"):
                 continue  # not confirmed within 100 s (reported inconclusive in the thorough tier)
             obs.append({"id": f"crosshair/{entry}/{slot}", "engine": "ch", "harness": "h_union", "params": {"entry": entry, "slot": slot}, "budget_s": 100 if tier == "quick" else 600})
     obs.append({"id": "twin/battery", "harness": "h_battery", "params": {"entry": "update_static", "slot": "tag_value", "twin": True}, "budget_s": 30})
